@@ -20,7 +20,7 @@ RULE = (
     "requested batches; distinct by (sequence class, p, verbose, folder, calls)."
 )
 ASSUMPTIONS = ["scripted values are kept a factor 1.02 away from the 0.5*10^-p rounding boundary; exact boundary values are not generated"]
-REQUIRED_COUNTERS = {"same_calibration_ran_longer_in_the_folder_before": 20, "saving_folder_used_before_by_another_run": 30, "runs_with_a_history_reading_sampler": 60, "runs_with_signed_loss": 40, "runs_on_a_three_point_grid": 30, "numpy_integer_precision": 30, "continued_after_restore": 40, "runs": 200, "converged_inside": 60, "never_converged": 30, "no_precision": 10, "verbose_twins": 60, "folder_restores": 40,
+REQUIRED_COUNTERS = {"calls_of_20_batches_or_more": 15, "converging_value_negative_or_minus_zero": 20, "precision_reassigned_between_calls": 15, "same_calibration_ran_longer_in_the_folder_before": 20, "saving_folder_used_before_by_another_run": 30, "runs_with_a_history_reading_sampler": 60, "runs_with_signed_loss": 40, "runs_on_a_three_point_grid": 30, "numpy_integer_precision": 30, "continued_after_restore": 40, "runs": 200, "converged_inside": 60, "never_converged": 30, "no_precision": 10, "verbose_twins": 60, "folder_restores": 40,
                      "later_calls_after_convergence": 20}
 SHARDS = {"quick": 8, "thorough": 16}
 
@@ -30,10 +30,10 @@ def gen_cases(tier, seed):
     return [{"i": i, "seed": seed} for i in range(n)]
 
 
-def expected_batches(batch_losses, p, calls):
-    """[batches run by each call] by the statement's rule."""
+def expected_batches(batch_losses, ps, calls):
+    """[batches run by each call] by the statement's rule (ps: the precision in force during each call)."""
     out, idx, best = [], 0, np.inf
-    for n in calls:
+    for n, p in zip(calls, ps):
         ran = 0
         for _ in range(n):
             best = min(best, min(batch_losses[idx]))
@@ -58,20 +58,34 @@ def one_run(rng, ctx, out):
     tiny_grid = bool(rng.random() < 0.15)   # fewer grid points than rows: an exhausted grid is no reason to stop
     bs = int(rng.integers(1, 4))
     calls = [int(x) for x in rng.integers(1, 7, size=int(rng.integers(1, 4)))]
+    if rng.random() < 0.06:
+        calls[int(rng.integers(len(calls)))] = int(rng.integers(20, 31))     # a long request: the rule is the same in batch 20 as in batch 2
+        c["calls_of_20_batches_or_more"] = c.get("calls_of_20_batches_or_more", 0) + 1
     total = sum(calls)
     unit = 10.0 ** (-(p if p is not None else 3))
     mode = str(rng.choice(["inside", "inside", "first", "never", "last_of_call"]))
+    if max(calls) >= 20 and rng.random() < 0.6:
+        mode = "late"
     if mode == "never":
         at = None
     elif mode == "first":
         at = 0
     elif mode == "last_of_call":
         at = calls[0] - 1
+    elif mode == "late":
+        k20 = next(i for i, n in enumerate(calls) if n >= 20)
+        at = sum(calls[:k20]) + int(rng.integers(15, calls[k20]))
     else:
         at = int(rng.integers(0, total))
     vals = (unit * rng.uniform(0.52, 50.0, size=(total, bs))).tolist()
     if at is not None:
         vals[at][int(rng.integers(bs))] = float(unit * rng.uniform(0.0, 0.48)) * float(rng.choice([1.0, 1.0, 0.0]))
+        if signed and rng.random() < 0.5:
+            # a best loss that is a tiny NEGATIVE number (or -0.0) rounds to zero as well
+            j = int(rng.integers(bs))
+            vals[at] = [abs(v) for v in vals[at]]
+            vals[at][j] = -float(unit * rng.uniform(0.0, 0.48)) if rng.random() < 0.7 else -0.0
+            c["converging_value_negative_or_minus_zero"] = c.get("converging_value_negative_or_minus_zero", 0) + 1
         for k in range(at + 1, total):  # later batches may or may not converge on their own; the running minimum decides
             if rng.random() < 0.3:
                 vals[k][0] = float(unit * rng.uniform(0.0, 0.48))
@@ -87,10 +101,23 @@ def one_run(rng, ctx, out):
         if "max_dedup" in third:
             third["max_dedup"] = 0
         c["runs_with_a_history_reading_sampler"] = c.get("runs_with_a_history_reading_sampler", 0) + 1
-    exp = expected_batches(vals, p, calls)
+    plist = [p] * len(calls)
+    if len(calls) > 1 and rng.random() < 0.15:
+        # convergence_precision is a public attribute: reassigned between two calls, the new value is the one in force
+        for _try in range(20):
+            p2 = None if rng.random() < 0.15 else int(rng.integers(0, 13))
+            if p2 is None or all(not (0.49 < abs(v) * 10.0**p2 < 0.51) for b in vals for v in b):
+                break
+        else:
+            p2 = p
+        k2 = int(rng.integers(1, len(calls)))
+        plist[k2:] = [p2] * (len(calls) - k2)
+        if p2 != p:
+            c["precision_reassigned_between_calls"] = c.get("precision_reassigned_between_calls", 0) + 1
+    exp = expected_batches(vals, plist, calls)
     use_folder = rng.random() < 0.5
     seed = int(rng.integers(2**31))
-    wit = {"precision": p, "precision_type": ptype if p is not None else None, "batch_size": bs, "calls": calls, "scripted_losses": vals, "expected_batches_per_call": exp,
+    wit = {"precision": p, "precision_in_force_per_call": plist, "precision_type": ptype if p is not None else None, "batch_size": bs, "calls": calls, "scripted_losses": vals, "expected_batches_per_call": exp,
            "folder": use_folder, "signed_loss": signed, "tiny_grid": tiny_grid, "third_sampler": third}
     if signed:
         c["runs_with_signed_loss"] = c.get("runs_with_signed_loss", 0) + 1
@@ -118,7 +145,9 @@ def one_run(rng, ctx, out):
                              parameters_precision=[0.5 if tiny_grid else 0.0001], ensemble_size=1, samplers=smp, convergence_precision=pp, verbose=verbose,
                              saving_folder=folder, random_state=seed, n_jobs=1)
         ran, rets = [], []
-        for n in calls:
+        for k, n in enumerate(calls):
+            if k > 0 and plist[k] != plist[k - 1]:
+                cal.convergence_precision = plist[k]
             b0 = cal.current_batch_index
             with quiet():
                 rets.append(cal.calibrate(n))
@@ -144,15 +173,15 @@ def one_run(rng, ctx, out):
         # the very same calibration (same seed, same scripted model) was run before in this folder WITHOUT a precision, to the end:
         # the folder holds a longer history whose first rows are identical to what this run will record
         try:
-            p_keep, pp_keep = p, pp
-            p, pp = None, None
+            p_keep, pp_keep, plist_keep = p, pp, plist
+            p, pp, plist = None, None, [None] * len(calls)
             run(False, folder)
             c["same_calibration_ran_longer_in_the_folder_before"] = c.get("same_calibration_ran_longer_in_the_folder_before", 0) + 1
             wit["same_calibration_ran_longer_in_the_folder_before"] = True
         except Exception:  # noqa: BLE001
             pass
         finally:
-            p, pp = p_keep, pp_keep
+            p, pp, plist = p_keep, pp_keep, plist_keep
     try:
         cal, model, ran, rets = run(verbose, folder)
     except Exception as e:  # noqa: BLE001
@@ -210,7 +239,7 @@ def one_run(rng, ctx, out):
                     rest.calibrate(2)
                 flat_all = [v for b in vals for v in b] + [unit * 9.0] * 64
                 best = min(flat_all[: (b0 + 1) * bs]) if signed else min(abs(v) for v in flat_all[: (b0 + 1) * bs])
-                want = 1 if (p is not None and np.round(best, p) == 0) else 2
+                want = 1 if (plist[-1] is not None and np.round(best, plist[-1]) == 0) else 2
                 c["continued_after_restore"] = c.get("continued_after_restore", 0) + 1
                 if rest.current_batch_index - b0 != want:
                     out["violations"].append({"msg": f"restored calibrator (precision {p}): calibrate(2) ran {rest.current_batch_index - b0} batches, the rounding rule gives {want}",
